@@ -410,6 +410,60 @@ func strUnquoteCase(c *strCase, res *strRes, r *rand.Rand, lead, trail string, e
 			}
 		}
 	}
+	// the generic (interface{}) decoder has its own unquote call sites: string values and object keys
+	if !raw {
+		for _, pol := range []string{"rep", "strict"} {
+			wErr, w := expect(pol)
+			for _, form := range []string{"value", "key", "nested"} {
+				doc := `"` + t + `"`
+				switch form {
+				case "key":
+					doc = `{"` + t + `":1}`
+				case "nested":
+					doc = `[{"k":["` + t + `"]}]`
+				}
+				d := decoder.NewDecoder(doc)
+				if pol == "strict" {
+					d.UseUnicodeErrors()
+				}
+				var iv interface{}
+				err := d.Decode(&iv)
+				obsAdd("iface", pol, form, fmt.Sprint(iv), err)
+				res.Evals++
+				name := "Decode.iface(" + form + "," + pol + ")"
+				if (err != nil) != wErr {
+					res.bad(c, name, "error_mismatch", in, fmt.Sprint("err=", wErr), fmt.Sprint(err, " ", iv))
+					continue
+				}
+				if wErr {
+					continue
+				}
+				var got string
+				ok := false
+				switch form {
+				case "value":
+					got, ok = iv.(string)
+				case "key":
+					if m, isM := iv.(map[string]interface{}); isM && len(m) == 1 {
+						for k := range m {
+							got, ok = k, true
+						}
+					}
+				case "nested":
+					if a, isA := iv.([]interface{}); isA && len(a) == 1 {
+						if m, isM := a[0].(map[string]interface{}); isM {
+							if b, isB := m["k"].([]interface{}); isB && len(b) == 1 {
+								got, ok = b[0].(string)
+							}
+						}
+					}
+				}
+				if !ok || got != w {
+					res.bad(c, name, "wrong_output", in, w, fmt.Sprint(iv))
+				}
+			}
+		}
+	}
 	// strict policy (UseUnicodeErrors): lone surrogates are errors
 	wantErrS, wantS := expect("strict")
 	d := decoder.NewDecoder(`"` + t + `"`)
